@@ -45,7 +45,7 @@ func main() {
 			return
 		}
 	}
-	n := 60
+	n := 220
 	if a.Thorough() {
 		n = 1200
 	}
